@@ -217,9 +217,10 @@ def _const(run, P):
     for s in f.node.body:
         if isinstance(s, ast.If):
             node = s
+    from .util import core
     while isinstance(node, ast.If):
         tests.append(ast.unparse(node.test))
-        nxt = node.orelse
+        nxt = core(node.orelse, lambda s_: isinstance(s_, ast.If))
         node = nxt[0] if len(nxt) == 1 and isinstance(nxt[0], ast.If) else None
     ok = len(tests) >= 2 and "complex" in tests[0] and "bool" in tests[1]
     run.ob("C03.const", f, f.node, ok,
